@@ -287,7 +287,9 @@ def execute(scenario, chooser):
             s = core.current()
             # the origin the real clock took (observation of its state; a
             # stall may separate the assignment from this line)
-            rec.append(('reset', self._start_time - s.epoch, len(s.log)))
+            origin = getattr(self, '_start_time', None)
+            origin = s.now if origin is None else origin - s.epoch
+            rec.append(('reset', origin, len(s.log)))
 
         def pause_for(self, delay):
             s = core.current()
@@ -339,7 +341,7 @@ def execute(scenario, chooser):
             st['errors'] = job.compile_errors
             return
         agent = jc.add_job(job, 'main')
-        th = agent._thread._st
+        th = world.thread_of_agent(sim, agent)
         st['job_thread'] = th.name
         sim.join(th)
         st['ended'] = sim.now
